@@ -18,3 +18,7 @@ def run(ctx):
         chunks, procs = 32, 8
     progcheck.run(ctx, "MaskEquiv", "Equivalent", "mask", args, chunks, procs)
     ctx.exhaustive = True
+
+
+def replay(ctx, path):
+    return progcheck.replay(ctx, path, "mask")
